@@ -23,6 +23,7 @@ inner writer per element; the accepted sets of `skipped` / `failed` filters equa
 (R3) Tee forwards events and writes to both children through one join; Or calls exactly one child per path, the
 left one on the predicate's true edge; discard wrappers forward handle_event unchanged; Stats algebra = C01.R4.
 (R4) type-level ordering (FailOnSkipped cannot sit inside Summarize/Repeat) is shown by the witness crate.
+Added after the second seeded round: (R6) Tee / Repeat hand out clones: Clone of every event:: and writer:: type keeps variant and fields (path tables; PhantomData fields excepted).
 """
 DECLINED = ["behaviour of user-supplied predicates / filters"]
 ASSUMPTIONS = ["future::join polls both operands to completion"]
